@@ -915,7 +915,24 @@ def gen_compose(rng, backend):
                 c[4]["same_as"] = c[4]["same_as"].replace("s1_", "s9_")
         feat.add("three-segments")
     child = rng.random() < 0.6
-    if backend != "bosonic" and rng.random() < 0.45:
+    args = {}
+    if rng.random() < 0.2:
+        # a free parameter used by every segment (Engine.run binds args in each segment)
+        args = {"a": rng.choice([0.4, -0.3, 0.7])}
+        for seg in segs:
+            nm = rng.choice(["Dgate", "Rgate", "Sgate"])
+            ps = {"Dgate": [{"f": "a"}, 0.2], "Rgate": [{"f": "a"}], "Sgate": [{"f": "a"}, 0.0]}[nm]
+            seg.insert(rng.randint(0, len(seg)), [nm, ps, [rng.randrange(n)], rng.random() < 0.4, {}])
+        feat.add("free-all")
+    if backend == "gaussian" and measured and rng.random() < 0.3:
+        # sampled instead of post-selected outcomes (np.random is seeded identically for each call pattern)
+        for seg in segs:
+            for c in seg:
+                if c[0].startswith("Measure"):
+                    c[4] = {}
+        feat.add("sampled")
+    if backend != "bosonic" and not args and rng.random() < 0.45:
+        # (not together with the free parameter: every segment must keep its own use of it)
         # follow-up segments that delete / create modes (only meaningful for child programs:
         # an independent Program(n) cannot follow a program that changed the register)
         k = add_reg_ops(rng, segs, n, max_total=4 if backend == "gaussian" else 3,
@@ -923,7 +940,8 @@ def gen_compose(rng, backend):
         if k:
             feat.add("reg-ops")
             child = True
-    return {"n": n, "backend": backend, "segs": segs, "child": child, "feat": sorted(feat)}
+    return {"n": n, "backend": backend, "segs": segs, "child": child, "feat": sorted(feat), "args": args,
+            "np_seed": rng.randrange(10 ** 6)}
 
 
 def compose_patterns(spec):
@@ -958,7 +976,9 @@ def compose_patterns(spec):
         begins.append(1)
         return orig_begin(*a, **k)
     eng.backend.begin_circuit = counting_begin
-    out["A"] = attempt(lambda: eng.run(progs), backend)
+    args = spec.get("args") or {}
+    np.random.seed(spec.get("np_seed", 0))
+    out["A"] = attempt(lambda: eng.run(progs, args=dict(args)), backend)
     out["begins"] = len(begins)
     for j, p_ in enumerate(progs):
         d = fp_diff(fps[j], fingerprint(p_))
@@ -970,15 +990,17 @@ def compose_patterns(spec):
     def seq():
         r = None
         for p in progs2:
-            r = eng2.run(p)
+            r = eng2.run(p, args=dict(args))
         return r
+    np.random.seed(spec.get("np_seed", 0))
     out["B"] = attempt(seq, backend)
     cache = {}
     pc = sf.Program(n)
     for i, seg in enumerate(spec["segs"]):
         s_build(pc, seg, cache, i)
     eng3 = new_engine(backend)
-    out["C"] = attempt(lambda: eng3.run(pc), backend)
+    np.random.seed(spec.get("np_seed", 0))
+    out["C"] = attempt(lambda: eng3.run(pc, args=dict(args)), backend)
     return out
 
 
@@ -1315,6 +1337,25 @@ def untouched_verdicts(spec):
     if not same_sig(b, c, tol):
         out.append(("rerun:differs-from-fresh-program" + (":after-exception" if raised or a[0] == "err" else ""),
                     "used Program object -> %s, freshly built identical program -> %s (or a different state)" % (brief(b), brief(c))))
+    if spec["args"] and any(isinstance(x, dict) and "f" in x for c_ in spec["cmds"] for x in c_[1]):
+        # binding: the program with free parameters bound through args = the same program with the numbers written in
+        def subst(x, args):
+            return args[x["f"]] if isinstance(x, dict) and "f" in x else x
+        lit = [[c[0], [subst(x, spec["args"]) for x in c[1]], c[2], c[3], c[4]] for c in spec["cmds"]]
+        P3 = s_build(sf.Program(n), lit, {}, 0)
+        co4 = None if spec["compile_options"] is None else dict(spec["compile_options"])
+        e = attempt(lambda: new_engine(backend).run(P3, compile_options=co4), backend)
+        if not same_sig(c, e, tol):
+            out.append(("bind:args-differ-from-literal-values", "program run with args=%r -> %s, same program with the numbers written in -> %s (or a different state)"
+                        % (spec["args"], brief(c), brief(e))))
+        # binding again: a second run of the SAME object with other values must use the new values
+        args2 = {k: round(-0.5 * v + 0.15, 3) for k, v in spec["args"].items()}
+        lit2 = [[c_[0], [subst(x, args2) for x in c_[1]], c_[2], c_[3], c_[4]] for c_ in spec["cmds"]]
+        f = attempt(lambda: new_engine(backend).run(P2, args=dict(args2), compile_options=None if co4 is None else dict(co4)), backend)
+        g = attempt(lambda: new_engine(backend).run(s_build(sf.Program(n), lit2, {}, 0), compile_options=None if co4 is None else dict(co4)), backend)
+        if not same_sig(f, g, tol):
+            out.append(("bind:second-run-with-other-args", "re-running a program with args=%r -> %s, the program with those numbers written in -> %s (or a different state)"
+                        % (args2, brief(f), brief(g))))
     return out, fp0
 
 
@@ -1368,7 +1409,18 @@ def decompose_correspondence(ctx):
 
 
 # ---- time-domain programs
+def tdm_fingerprint(P):
+    return {"circuit": [str(c) for c in P.circuit], "rolled": [str(c) for c in (P.rolled_circuit or [])],
+            "params": repr(P.tdm_params), "is_unrolled": P.is_unrolled,
+            "space_unrolled": P.space_unrolled_circuit is not None,
+            "regs": sorted((k, r.ind, r.active) for k, r in P.reg_refs.items()), "num_subsystems": P.num_subsystems,
+            "init_num_subsystems": P.init_num_subsystems, "timebins": P.timebins}
+
+
 def tdm_verdict(rng_seed, spec):
+    """A time-domain program run through histories of user-side unroll / space_unroll / roll calls and
+    engine runs with varying shots: every run must give the samples a freshly built program gives for
+    the same call, and must leave the program as the user left it."""
     def build():
         prog = sf.TDMProgram(N=spec["N"])
         with prog.context(spec["a"], spec["b"]) as (p, q):
@@ -1379,24 +1431,53 @@ def tdm_verdict(rng_seed, spec):
             ops.MeasureHomodyne(p[1]) | q[0]
         return prog
 
-    def run(prog, eng):
+    def run(prog, eng, shots, **kw):
         np.random.seed(rng_seed)
-        return np.array(eng.run(prog, shots=spec["shots"]).samples)
+        return np.array(eng.run(prog, shots=shots, **kw).samples)
+
+    def prep(prog, how, shots):
+        if how == "unroll":
+            prog.unroll(shots=shots)
+        elif how == "unroll-other-shots-then-roll":
+            prog.unroll(shots=shots + 1)
+            prog.roll()
+        elif how == "space-unroll-then-roll":
+            prog.space_unroll(shots=shots)
+            prog.roll()
+        elif how == "unroll-roll-unroll":
+            prog.unroll(shots=shots + 1)
+            prog.roll()
+            prog.unroll(shots=shots)
 
     P = build()
-    text0 = (str([str(c) for c in P.circuit]), repr(P.tdm_params), P.is_unrolled)
-    s1 = run(P, sf.Engine("gaussian"))
-    text1 = (str([str(c) for c in P.circuit]), repr(P.tdm_params), P.is_unrolled)
-    if text0 != text1:
-        return ("tdm:program-changed-by-run", "TDMProgram differs after Engine.run: %s -> %s" % (text0, text1))
     eng = sf.Engine("gaussian")
-    s2 = run(P, eng)
-    eng.reset()
-    s3 = run(P, eng)
-    s4 = run(build(), sf.Engine("gaussian"))
-    for nm, s in (("rerun", s2), ("after-reset", s3), ("fresh-program", s4)):
-        if s.shape != s1.shape or not np.allclose(s, s1, atol=1e-9):
-            return ("tdm:" + nm + "-differs", "TDM samples differ between the first run and %s" % nm)
+    for step, (how, shots, reset_first) in enumerate(spec.get("history", [["none", spec["shots"], False], ["none", spec["shots"], True]])):
+        prep(P, how, shots)
+        fp0 = tdm_fingerprint(P)
+        if reset_first:
+            eng.reset()
+        else:
+            eng = sf.Engine("gaussian")
+        got = run(P, eng, shots)
+        fp1 = tdm_fingerprint(P)
+        for k in fp0:
+            if fp0[k] != fp1[k]:
+                return ("tdm:program-changed-by-run:" + k, "step %d (%s, shots=%d): TDMProgram.%s differs after Engine.run" % (step, how, shots, k))
+        # a freshly built program taken through the same user-side calls (and no engine run)
+        Q = build()
+        hist_ = spec.get("history", [["none", spec["shots"], False], ["none", spec["shots"], True]])
+        for how_, shots_, _ in hist_[:step]:
+            prep(Q, how_, shots_)
+            Q.roll() if spec.get("roll_between", False) else None
+        prep(Q, how, shots)
+        was_rolled = not Q.is_unrolled
+        want = run(Q, sf.Engine("gaussian"), shots)
+        if got.shape != want.shape or not np.allclose(got, want, atol=1e-9):
+            return ("tdm:rerun-differs-from-fresh-program", "step %d (%s, shots=%d): samples of the re-used program %s differ from a freshly built program's %s"
+                    % (step, how, shots, got.shape, want.shape))
+        if was_rolled and want.shape[0] != shots:
+            return ("tdm:wrong-number-of-shots", "step %d (%s, shots=%d): samples have shape %s" % (step, how, shots, want.shape))
+        P.roll() if spec.get("roll_between", False) else None
     return None
 
 
@@ -1430,6 +1511,7 @@ def search(ctx):
         if v:
             ctx.counterexample(v[0], v[1], d)
     merge_sweep(ctx)
+    ff_sweep(ctx)
     for _ in range(ctx.budget(30, 1200)):
         spec = gen_reset(rng, "bosonic" if rng.random() < 0.2 else pick())
         v = reset_verdict(spec)
@@ -1448,11 +1530,14 @@ def search(ctx):
                     ctx.hist.get("untouched:" + ft + (":optimized" if (spec.get("call_optimize") or (spec["precompile"] and spec.get("precompile_optimize")) or (spec["compile_options"] or {}).get("optimize")) else ""), 0) + 1
         for sig, text in vs:
             ctx.counterexample(sig, text, {"check": "untouched", "spec": spec})
-    for k in range(ctx.budget(3, 40)):
+    for k in range(ctx.budget(8, 60)):
         N = rng.randint(1, 3)
         T = rng.randint(2, 4)
+        hows = ["none", "none", "unroll", "unroll-other-shots-then-roll", "space-unroll-then-roll", "unroll-roll-unroll"]
         spec = {"N": N, "a": [round(rng.uniform(0, 1.5), 3) for _ in range(T)], "b": [round(rng.uniform(0, 1.5), 3) for _ in range(T)],
-                "r": round(rng.uniform(0.1, 0.8), 3), "shots": rng.randint(1, 2)}
+                "r": round(rng.uniform(0.1, 0.8), 3), "shots": rng.randint(1, 2),
+                "history": [[rng.choice(hows) if j or k % 2 else "none", rng.randint(1, 3), bool(j and rng.random() < 0.5)] for j in range(rng.randint(2, 3))],
+                "roll_between": rng.random() < 0.5}
         try:
             v = tdm_verdict(ctx.seed + k, spec)
         except Exception as e:  # noqa: BLE001
@@ -1478,6 +1563,33 @@ def merge_sweep(ctx):
             ctx.case({"untouched": spec}, nontrivial=True, bucket="merge-sweep:%s:%s" % (backend, fam))
             for sig, text in vs:
                 ctx.counterexample(sig, text, {"check": "untouched", "spec": spec})
+
+
+def ff_sweep(ctx):
+    """Deterministic family: every mode of 1-3 mode registers is measured (some twice, the later value
+    counts) and fed forward into the following segment, directly or across an empty middle segment, with
+    child and independent follow-up programs."""
+    sel = [0.25, -0.5, 0.8]
+    case = 0
+    for n in (1, 2, 3):
+        for k in range(n):
+            for variant in range(2):
+                order = [(k + 1 + j) % n for j in range(n)]          # mode k is measured last
+                seg1 = [["Squeezed", [0.3 + 0.1 * m, 0.2], [m], False, {}] for m in range(n)]
+                if variant:
+                    seg1 += [["MeasureHomodyne", [0.0], [k], False, {"select": 0.6}], ["Squeezed", [0.25, 0.1], [k], False, {}]]
+                seg1 += [["MeasureHomodyne", [0.0], [m], False, {"select": sel[m]}] for m in order]
+                tgt = (k + 1) % n
+                seg2 = [["Coherent", [0.4, 0.3], [tgt], False, {}], ["Dgate", [{"m": k, "c": 0.5}, 0.3], [tgt], bool(variant), {}],
+                        ["Rgate", [{"m": order[0], "c": -0.7}], [tgt], False, {}]]
+                segs = [seg1, seg2] if (case % 3) else [seg1, [["Rgate", [0.2], [tgt], False, {}]], seg2]
+                spec = {"n": n, "backend": "gaussian", "segs": segs, "child": bool(case % 2), "feat": ["ff-cross", "sweep"], "args": {}, "np_seed": 1}
+                case += 1
+                out = compose_patterns(spec)
+                v = compose_verdict(spec, out)
+                ctx.case({"compose": spec, "A": brief(out["A"]), "C": brief(out["C"])}, nontrivial=True, bucket="ff-sweep:n%d" % n)
+                if v:
+                    ctx.counterexample(v[0], v[1], {"check": "compose", "spec": spec})
 
 
 def search_eval(d):
